@@ -312,6 +312,9 @@ def main(argv=None):
     # ... and the byte I/O of the field elements below it (BigInt::read/write_big_endian run for real on a 1-aligned buffer whose address is
     # symbolic, so a word-wise fast path behind an address test is decided against that test): C02's Fq I/O obligations
     chk.include("C02", only=r"more:Fq::(read|write)_big_endian|more:BigInt")
+    # the assembly kernels of every back end: each load, store, push, pop and return is a checked access against the frame and the operand
+    # objects (stack discipline, callee-saved registers, no access outside the operands): C03's obligations
+    chk.include("C03")
     # every C struct must have the size and alignment of the C++ object its wrapper casts it to (an under-aligned or undersized C object is an
     # out-of-bounds / misaligned access for a valid C caller): C19's layout and wrapper obligations
     chk.include("C19")
@@ -319,6 +322,8 @@ def main(argv=None):
     # (every access is a checked access): the obligations of C11, C13 and C14
     for dep in ("C11", "C13", "C14"):
         chk.include(dep)
+    # statelessness (no call leaves anything behind in a global or static) is a premise of every per-call obligation: C20's IR obligations
+    chk.include("C20")
     chk.run()
     chk.finish()
 
